@@ -224,6 +224,12 @@ CatalogFragment::CatalogFragment(DFS::Format format,
 	if (title_initial & (1 << 7))
 	  total_sectors_ |= (1 << 9);
 	break;
+      case Format::WDFS:
+	// Watford DDFS large discs: bit 2 of byte 6 is b10 of the
+	// total sector count (as in get_dfs_sector_count()).
+	if (metadata[6] & 4)
+	  total_sectors_ |= (1 << 10);
+	break;
       default:
 	// no more bits
 	break;
